@@ -8,7 +8,7 @@ import sys
 from typing import Any, Dict, List, Optional, Tuple
 
 from ..core import Ctx, Infra, enc, subprocess_env, VERIF
-from ..gen.bindings import BindGen
+from ..gen.bindings import BindGen, abstract_project, Unsupported
 from ..gen.project import Unit, build_system
 from .. import namesdump as nd
 
@@ -61,6 +61,192 @@ def pd_ident(o) -> List[Any]:
     return ["other", repr(o)]
 
 
+# --------------------------------------------------------------------------------------------
+# `imports build` / `pyimp run`: the abstract project (harness/gen/bindings.abstract_project, a syntactic
+# translation of the generated sources) is given to the Lean models of the BUILDING code (PdModel/Imports.lean)
+# and of CPython's import machinery (PdModel/PyImp.lean); their final states and answers are compared with the
+# real pydoctor System and with what the interpreter reports.
+
+def build_real(units: List[Unit], order: Optional[List[int]] = None):
+    """the real System from the units (creation order = unit order); returns (system, module objects in
+    unit order, number of handleDuplicate calls)"""
+    from pydoctor import model
+    s = model.System()
+    b = s.systemBuilder(s)
+    mods = []
+    calls = [0]
+    orig = model.System.handleDuplicate
+
+    def counting(self, obj):
+        calls[0] += 1
+        return orig(self, obj)
+    model.System.handleDuplicate = counting
+    try:
+        for u in units:
+            b.addModuleString(u.source, u.name, parent_name=u.parent, is_package=u.is_package)
+            mods.append(s.allobjects[u.qname])
+        if order is not None:
+            s.unprocessed_modules[:] = [mods[i] for i in order]
+        b.buildModules()
+    finally:
+        model.System.handleDuplicate = orig
+    return s, mods, calls[0]
+
+
+def pd_dump(system) -> str:
+    lines = []
+    for k, o in system.allobjects.items():
+        cont = ",".join(sorted(enc(n) for n in o.contents))
+        al = ",".join(sorted("%s=%s" % (enc(a), enc(t)) for a, t in getattr(o, "_localNameToFullName_map", {}).items()))
+        lines.append("%s;%s;%s;%s" % (enc(k), nd.cls_letter(o), cont, al))
+    return " ".join(sorted(lines))
+
+
+def split_scope(scope: str, modnames: List[str]) -> Tuple[int, List[str]]:
+    best = max((q for q in modnames if scope == q or scope.startswith(q + ".")), key=len)
+    rest = scope[len(best) + 1:]
+    return modnames.index(best), (rest.split(".") if rest else [])
+
+
+def real_walk(mods, m: int, chain: List[str]):
+    o = mods[m]
+    for c in chain:
+        o = o.contents.get(c)
+        if o is None:
+            return None
+    return o
+
+
+def pd_answer(so, dotted: str) -> str:
+    from pydoctor import model
+    if so is None:
+        return "NoScope"
+    try:
+        so.expandName(dotted)
+    except Exception:
+        return "Crash"
+    try:
+        r = so.resolveName(dotted)
+    except Exception:
+        return "Crash"
+    if r is None:
+        return "None"
+    return ("m:" if isinstance(r, model.Module) else "d:") + enc(r.fullName())
+
+
+def py_site(sid: str, info) -> str:
+    """CPython's site identity (pyrun.site_ident) in the model's spelling"""
+    if sid.startswith("v:"):
+        site = info["values"].get(int(sid[2:]))
+        return "d:" + enc(site) if site is not None else "?" + sid
+    if sid[:2] in ("m:", "d:"):
+        return sid[:2] + enc(sid[2:])
+    return "?" + sid
+
+
+def pd_site(o, info) -> Optional[str]:
+    """definition-site identity of a pydoctor object (independent of where a re-export moved it)"""
+    pid = pd_ident(o)
+    if pid[0] == "module":
+        return "m:" + enc(pid[1])
+    if pid[0] == "def":
+        site = info["defs"].get(pid[1][3:])
+        return "d:" + enc(site) if site else None
+    if pid[0] == "value" and isinstance(pid[1], int):
+        site = info["values"].get(pid[1])
+        return "d:" + enc(site) if site else None
+    return None
+
+
+def compare_lines(ctx: Ctx, stream: str, reqs: List[str], impls: List[Optional[str]], pay: List[Any]) -> None:
+    """like ctx.compare; an implementation entry None = the real run raised: the model must say bad=true"""
+    if not ctx.model_ok or not reqs:
+        return
+    outs = ctx.driver.run_parallel(list(reqs))
+    for rq, mo, io, p in zip(reqs, outs, impls, pay):
+        ctx.traces_validated += 1
+        if io is None:
+            if not mo.startswith("ok bad=true"):
+                ctx.disagree(stream, p, mo, "the real run raised")
+        elif mo != io:
+            ctx.disagree(stream, p, mo, io)
+
+
+def run_abstract(ctx: Ctx, gens, pyres) -> None:
+    b_reqs, b_impl, b_pay = [], [], []
+    p_reqs, p_impl, p_pay = [], [], []
+    for (g, units), py in zip(gens, pyres):
+        src = {u.qname: u.source for u in units}
+        try:
+            toks, info = abstract_project(units)
+        except Unsupported as e:
+            ctx.count("abstract:unsupported:" + str(e))
+            continue
+        ctx.count("abstract:projects")
+        for k, v in info["forms"].items():
+            ctx.count("abstract:form:" + k, v)
+        modnames = info["mods"]
+        order = "O|" + (",".join(str(i) for i in range(len(units))) or "-")
+        # ---- (b) pyimp run: PyImp model vs CPython
+        if py.get("error"):
+            p_reqs.append("pyimp run " + " ".join(toks) + " " + order + " ?")
+            p_impl.append("ok err=true")
+            p_pay.append({"units": src, "python_error": py["error"]})
+        elif "sites" in py:
+            lines, queries, answers = [], [], []
+            for scope, names in py["sites"].items():
+                own = sorted("%s=%s" % (enc(k), py_site(v, info)) for k, v in names.items() if "." not in k)
+                lines.append(enc(scope) + ";" + ",".join(own))
+                m, chain = split_scope(scope, modnames)
+                for dotted, v in names.items():
+                    if "." in dotted and len(queries) < 600:
+                        queries.append("R|%d|%s|%s" % (m, enc(".".join(chain)) if chain else "-", enc(dotted)))
+                        answers.append(py_site(v, info))
+                        ctx.count("pyimp:query-depth:%d" % dotted.count("."))
+            p_reqs.append("pyimp run " + " ".join(toks) + " " + order + " ? " + " ".join(queries))
+            p_impl.append("ok err=false | " + " ".join(sorted(lines)) + " | " + " ".join(answers))
+            p_pay.append({"units": src})
+        # ---- (a) imports build: Imports model vs the real System
+        try:
+            system, mods, dupcalls = build_real(units)
+        except Exception as e:
+            b_reqs.append("imports build " + " ".join(toks) + " " + order + " ?")
+            b_impl.append(None)
+            b_pay.append({"units": src, "raised": "%s: %s" % (type(e).__name__, e)})
+            continue
+        queries, answers = [], []
+        seen = set()
+
+        def ask(m, chain, dotted):
+            key = (m, tuple(chain), dotted)
+            if key in seen or len(queries) >= 500 or not dotted or any(not p for p in dotted.split(".")):
+                return
+            seen.add(key)
+            queries.append("R|%d|%s|%s" % (m, enc(".".join(chain)) if chain else "-", enc(dotted)))
+            answers.append(pd_answer(real_walk(mods, m, chain), dotted))
+        if not py.get("error"):
+            for scope, names in (py.get("sites") or py.get("scopes") or {}).items():
+                m, chain = split_scope(scope, modnames)
+                for dotted in names:
+                    ask(m, chain, dotted)
+        # names only pydoctor binds (alias maps of every scope reachable from the modules) and one extension
+        stack = [(i, [], mods[i]) for i in range(len(mods))]
+        while stack:
+            m, chain, o = stack.pop()
+            for a in list(getattr(o, "_localNameToFullName_map", {})):
+                ask(m, chain, a)
+            for n, c in o.contents.items():
+                ask(m, chain, n)
+                if nd.cls_letter(c) == "C":
+                    stack.append((m, chain + [n], c))
+        b_reqs.append("imports build " + " ".join(toks) + " " + order + " ? " + " ".join(queries))
+        b_impl.append("ok bad=%s | %s | %s" % ("true" if dupcalls else "false", pd_dump(system), " ".join(answers)))
+        b_pay.append({"units": src})
+        ctx.count("imports:queries", len(queries))
+    compare_lines(ctx, "imports-build", b_reqs, b_impl, b_pay)
+    compare_lines(ctx, "pyimp-run", p_reqs, p_impl, p_pay)
+
+
 def run(ctx: Ctx) -> None:
     nproj = 150 if ctx.quick else 4000
     gens, projects = [], []
@@ -68,7 +254,7 @@ def run(ctx: Ctx) -> None:
         g = BindGen(ctx.rng)
         units = g.project()
         gens.append((g, units))
-        projects.append({"files": files_of(units), "modules": [u.qname for u in units]})
+        projects.append({"files": files_of(units), "modules": [u.qname for u in units], "sites": True})
     pyres: List[Dict[str, Any]] = []
     B = 100
     for i in range(0, len(projects), B):
@@ -142,11 +328,38 @@ def run(ctx: Ctx) -> None:
                     answers.append(nd.real_expand(so, dotted))
                     queries.append("R|%d|%s" % (ids[id(so)], enc(dotted)))
                     answers.append(nd.real_resolve(so, dotted, ids))
+        # attributes a class inherits (reported by CPython along the MRO, not in the class's own namespace)
+        try:
+            _, info = abstract_project(units)
+        except Unsupported:
+            info = None
+        for scope, names in ((py.get("sites") or {}).items() if info else ()):
+            so = system.allobjects.get(scope) or by_doc.get("ID:" + scope.rsplit(".", 1)[-1])
+            own = py["scopes"].get(scope, {})
+            if so is None:
+                continue
+            for dotted, sid in names.items():
+                if dotted in own:
+                    continue
+                ctx.count("inherited-attribute-names")
+                try:
+                    r = so.resolveName(dotted)
+                except Exception as e:
+                    ctx.fail("resolve-crash:" + type(e).__name__, {"units": src, "scope": scope, "name": dotted}, str(e))
+                    continue
+                if r is None:
+                    ctx.count("inherited-attribute-names:unresolved")
+                    continue
+                ps, cs = pd_site(r, info), py_site(sid, info)
+                if ps is not None and not cs.startswith("?") and ps != cs:
+                    ctx.fail("unsound:inherited-attribute:enclosing-scope-first", {"units": src, "scope": scope, "name": dotted},
+                             f"in {scope}, {dotted!r} resolves to {r.fullName()} but Python's attribute lookup gives {sid}")
         if not nd.has_dotted_names(objs):
             reqs.append("names q " + " ".join(toks) + " ? " + " ".join(queries))
             impls.append("ok " + " ".join(answers))
             pay.append({"units": src})
     ctx.compare("names-queries", reqs, impls, pay)
+    run_abstract(ctx, gens, pyres)
 
 
 def defined_in_aliased(g: BindGen, scope: str, dotted: str, system) -> bool:
